@@ -42,9 +42,10 @@ Proof.
   rewrite Hst, Hs, Hobs. rewrite (node_value_frame s s' Hn) by done. done.
 Qed.
 
-(* in a poisoned state, one operation of the history (the op and the end-of-op collection) *)
-Lemma poisoned_step_Rro fuel st op s o :
-  st_status s <> NotStabilising -> expert_op op = false -> op_target op <> Some o ->
+(* one operation of the history (the op and the end-of-op collection), either in a poisoned state or
+   when the operation is not a stabilise *)
+Lemma step_Rro fuel st op s o :
+  st_status s <> NotStabilising \/ op <> OpStabilise -> expert_op op = false -> op_target op <> Some o ->
   Rro o s (end_of_op (step fuel st op (s <| events := [] |>)).2).
 Proof.
   intros Hp Hne Ht.
@@ -56,7 +57,7 @@ Proof.
     split_and!; try done; intros ? ? H; eexists; (split; [exact H|done]). }
   etrans; [exact R0|]. etrans; [|apply Rend].
   assert (op = OpStabilise \/ op <> OpStabilise) as [->|Hns] by (destruct op; (by left) || (by right)).
-  - cbn [step]. unfold bindM. rewrite stabilise_refuses by done. done.
+  - destruct Hp as [Hp|Hp]; [|done]. cbn [step]. unfold bindM. rewrite stabilise_refuses by done. done.
   - pose proof (step_readx fuel st op Hns Hne) as H.
     destruct (op_target op) as [t|] eqn:E.
     + apply (Rro_of_RreadX t); [congruence|apply H].
@@ -64,21 +65,21 @@ Proof.
 Qed.
 
 Local Opaque step end_of_op.
-Lemma run_poisoned_reads_frozen fuel ops : forall st s o ob,
-  st_status s <> NotStabilising ->
+Lemma run_reads_frozen fuel ops : forall st s o ob,
+  st_status s <> NotStabilising \/ Forall (fun op => op <> OpStabilise) ops ->
   Forall (fun op => expert_op op = false /\ op_target op <> Some o) ops ->
   obss s !! o = Some ob -> is_Some (nodes s !! o_observing ob) ->
   Forall (fun e => read_result e.2 o = read_result s o) (run fuel ops st s).
 Proof.
   induction ops as [|op ops IH]; intros st s o ob Hp Hops Ho Hex; simpl; [constructor|].
   inversion Hops as [|? ? [Hne Ht] Hops']; subst. clear Hops. rename Hops' into Hops.
-  pose proof (poisoned_step_Rro fuel st op s o Hp Hne Ht) as R.
-  assert (st_status (s <| events := [] |>) <> NotStabilising) as Hp0 by done.
-  pose proof (step_keeps_poison fuel st op _ Hp0) as Hst.
-  destruct (step fuel st op (s <| events := [] |>)) as [r s1] eqn:E. simpl in R, Hst.
+  assert (st_status s <> NotStabilising \/ op <> OpStabilise) as Hp1.
+  { destruct Hp as [Hp|Hp]; [by left|right]. by inversion Hp. }
+  pose proof (step_Rro fuel st op s o Hp1 Hne Ht) as R.
+  destruct (step fuel st op (s <| events := [] |>)) as [r s1] eqn:E. simpl in R.
   set (s2 := end_of_op s1) in *.
-  assert (st_status s2 <> NotStabilising) as Hp2.
-  { unfold s2. rewrite end_of_op_status, Hst. exact Hp. }
+  assert (st_status s2 <> NotStabilising \/ Forall (fun op => op <> OpStabilise) ops) as Hp2.
+  { destruct Hp as [Hp|Hp]; [left|right; by inversion Hp]. destruct R as (-> & _). exact Hp. }
   pose proof (Rro_read o s s2 ob R Ho Hex) as Hr.
   destruct R as (_ & Hn & Hob). destruct (Hob ob Ho) as (ob2 & Ho2 & _ & Hoo).
   assert (is_Some (nodes s2 !! o_observing ob2)) as Hex2.
@@ -89,6 +90,20 @@ Proof.
   destruct r as [[st' out]| |]; simpl; (constructor; [exact Hr|apply Hrest]).
 Qed.
 Local Transparent step end_of_op.
+
+Lemma run_poisoned_reads_frozen fuel ops st s o ob :
+  st_status s <> NotStabilising ->
+  Forall (fun op => expert_op op = false /\ op_target op <> Some o) ops ->
+  obss s !! o = Some ob -> is_Some (nodes s !! o_observing ob) ->
+  Forall (fun e => read_result e.2 o = read_result s o) (run fuel ops st s).
+Proof. intros Hp. apply run_reads_frozen. by left. Qed.
+
+Lemma run_nonstab_reads_frozen fuel ops st s o ob :
+  Forall (fun op => op <> OpStabilise) ops ->
+  Forall (fun op => expert_op op = false /\ op_target op <> Some o) ops ->
+  obss s !! o = Some ob -> is_Some (nodes s !! o_observing ob) ->
+  Forall (fun e => read_result e.2 o = read_result s o) (run fuel ops st s).
+Proof. intros H. apply run_reads_frozen. by right. Qed.
 
 (* ---- giving up handles never panics *)
 Definition is_drop_op (o : op) : bool :=
@@ -124,4 +139,15 @@ Proof.
     unfold drop_var_handle, get_var, upd_var, modify, bindM, get, ret, panic. cbv beta iota.
     destruct (vars s !! x) as [v|]; [|done]. cbv beta iota. case_bool_decide; done.
   - (* OpDropExports *) done.
+Qed.
+
+(* drop operations are neither stabilise nor expert operations *)
+Lemma run_drops_reads_frozen fuel ops st s o ob :
+  Forall (fun op => is_drop_op op = true /\ op_target op <> Some o) ops ->
+  obss s !! o = Some ob -> is_Some (nodes s !! o_observing ob) ->
+  Forall (fun e => read_result e.2 o = read_result s o) (run fuel ops st s).
+Proof.
+  intros Hops. apply run_reads_frozen.
+  - right. eapply List.Forall_impl; [|exact Hops]. intros op [Hd _] ->. done.
+  - eapply List.Forall_impl; [|exact Hops]. intros op [Hd Ht]. split; [|done]. by destruct op.
 Qed.
